@@ -30,6 +30,9 @@ pub struct Meta {
     /// device id (hardlink detection needs a non-zero device and inode and links > 1)
     #[serde(default)]
     pub dev: u64,
+    /// access time in ns since epoch (None = not recorded; restore then uses the mtime)
+    #[serde(default)]
+    pub atime: Option<i128>,
 }
 
 impl Meta {
@@ -309,7 +312,7 @@ pub fn node_of(name: &[u8], e: &Entry, raw_name: Option<&String>) -> Node {
     let meta = Metadata {
         mode: e.meta.mode.map(|m| to_go_mode(m, matches!(e.ent, Ent::Dir(_)), matches!(e.ent, Ent::Symlink(_)))),
         mtime: e.meta.mtime.and_then(ts),
-        atime: None,
+        atime: e.meta.atime.and_then(ts),
         ctime: e.meta.ctime.and_then(ts),
         uid: e.meta.uid,
         gid: e.meta.gid,
